@@ -546,11 +546,36 @@ type bufRunner struct {
 	e                     evw
 }
 
+// A corrupted buffer may panic in String/Bytes/Len themselves; that is an observation like any
+// other (bytes.Buffer never does), so it is recorded - as length -1 / empty contents - instead of
+// killing the worker.
+func bufSafeLen(x bufAPI) (n int) {
+	defer func() {
+		if recover() != nil {
+			n = -1
+		}
+	}()
+	return x.Len()
+}
+
+func bufSafeContents(x bufAPI) (s, b []byte, ok bool) {
+	defer func() {
+		if recover() != nil {
+			s, b, ok = nil, nil, false
+		}
+	}()
+	return []byte(x.String()), append([]byte(nil), x.Bytes()...), true
+}
+
 func (r *bufRunner) observe(x bufAPI, e *evw, full bool) {
-	e.num("len", x.Len())
+	e.num("len", bufSafeLen(x))
 	if full {
-		e.bytes("s", []byte(x.String()))
-		e.bytes("bs", x.Bytes())
+		s, b, ok := bufSafeContents(x)
+		if !ok {
+			e.num("len", -1)
+		}
+		e.bytes("s", s)
+		e.bytes("bs", b)
 	}
 }
 
@@ -602,9 +627,11 @@ func (r *bufRunner) step(pc, bb bufAPI, op *bufOp, obs string, last bool, idx in
 		results[k] = res
 	}
 	// lock-step cross-check
-	same := results[0].same(results[1]) && pc.Len() == bb.Len()
-	if same && (pc.Len() <= 256 || last || idx%8 == 0) {
-		same = pc.String() == bb.String() && bytes.Equal(pc.Bytes(), bb.Bytes())
+	same := results[0].same(results[1]) && bufSafeLen(pc) == bufSafeLen(bb)
+	if same && (bufSafeLen(pc) <= 256 || last || idx%8 == 0) {
+		ps, pb, ok1 := bufSafeContents(pc)
+		bs, bbb, ok2 := bufSafeContents(bb)
+		same = ok1 && ok2 && bytes.Equal(ps, bs) && bytes.Equal(pb, bbb)
 	}
 	if !same {
 		e := &r.e
@@ -623,10 +650,12 @@ func (r *bufRunner) step(pc, bb bufAPI, op *bufOp, obs string, last bool, idx in
 		e.num("bb_rm", results[1].rm)
 		e.bytes("pc_rb", clipBytes(results[0].rb))
 		e.bytes("bb_rb", clipBytes(results[1].rb))
-		e.num("pc_len", pc.Len())
-		e.num("bb_len", bb.Len())
-		e.bytes("pc_s", clipBytes(pc.Bytes()))
-		e.bytes("bb_s", clipBytes(bb.Bytes()))
+		e.num("pc_len", bufSafeLen(pc))
+		e.num("bb_len", bufSafeLen(bb))
+		ps, _, _ := bufSafeContents(pc)
+		bs, _, _ := bufSafeContents(bb)
+		e.bytes("pc_s", clipBytes(ps))
+		e.bytes("bb_s", clipBytes(bs))
 		e.end(r.outLock)
 	}
 }
@@ -1027,7 +1056,25 @@ func (r *bufRunner) runRandom(g *bufGen, rd *bufRandom) {
 	withSubjects(&nw, func(pc, bb bufAPI, init []byte) {
 		r.begin(&nw, init)
 		prev := ""
-		for i := 0; i < steps; i++ {
+		i := 0
+		defer func() {
+			// the generator looks at the buffer (Len, Bytes, Cap ...) to aim its next call; a
+			// PrintCtx that panics while merely being looked at is a divergence from
+			// bytes.Buffer, not a harness failure: report it through the lock-step log
+			if v := recover(); v != nil {
+				e := &r.e
+				e.begin()
+				e.num("trace", r.trace)
+				e.num("step", i)
+				e.str("op", "inspect-after-"+prev)
+				e.str("pc_pan", fmt.Sprint(v))
+				e.str("bb_pan", "")
+				e.num("pc_len", bufSafeLen(pc))
+				e.num("bb_len", bufSafeLen(bb))
+				e.end(r.outLock)
+			}
+		}()
+		for ; i < steps; i++ {
 			op := g.next(pc, prev)
 			r.step(pc, bb, &op, obs, i == steps-1, i)
 			prev = op.Op
